@@ -90,7 +90,8 @@ func (h *Handler) modifyResponse(r *http.Response) error {
 		log.Debug("Skipping response modification because templ-skip-modify header is set")
 		return nil
 	}
-	if contentType := r.Header.Get("Content-Type"); !strings.HasPrefix(contentType, "text/html") {
+	// Media types are case-insensitive.
+	if contentType := r.Header.Get("Content-Type"); !strings.HasPrefix(strings.ToLower(contentType), "text/html") {
 		log.Debug("Skipping response modification because content type is not text/html", slog.String("content-type", contentType))
 		return nil
 	}
